@@ -53,7 +53,7 @@ def _argspec(draw, ctr, depth=0):
 
 @st.composite
 def _args(draw, ctr, depth=0):
-    names = draw(st.lists(st.sampled_from(['a', 'b', 'c']), max_size=2, unique=True))
+    names = draw(st.lists(st.sampled_from(['a', 'b', 'c', '_func']), max_size=2, unique=True))     # ('_func': an argument name like any other)
     out = []
     for n in names:
         sp = draw(_argspec(ctr, depth))
